@@ -61,6 +61,9 @@ impl Buildpack for TB {
                 }
                 DetectResultBuilder::pass().build_plan(b.build()).build()
             }
+            // a plan that consists of alternatives only (empty head) and the EMPTY plan: both are written like any other plan
+            "pass_orplan" => DetectResultBuilder::pass().build_plan(BuildPlanBuilder::new().or().provides("jdk").requires("jdk").build()).build(),
+            "pass_emptyplan" => DetectResultBuilder::pass().build_plan(libcnb::data::build_plan::BuildPlan::new()).build(),
             "fail" => DetectResultBuilder::fail().build(),
             _ => Err(Error::BuildpackError(TErr)),
         }
